@@ -193,6 +193,7 @@ type Net struct {
 	Arrivals   chan Arrival
 	Logs       chan LogRec
 	cur        chan MeasureResult // result channel of the call in progress (nil: none); harness goroutine only
+	Last       MeasureResult      // result of the last finished call
 	T          Transport
 	ClientID   string
 	hcount     int
@@ -296,8 +297,8 @@ func (n *Net) Poll() {
 		return
 	}
 	select {
-	case <-n.cur:
-		n.cur = nil
+	case r := <-n.cur:
+		n.cur, n.Last = nil, r
 	default:
 	}
 }
@@ -308,8 +309,8 @@ func (n *Net) Wait(d time.Duration) bool {
 		return true
 	}
 	select {
-	case <-n.cur:
-		n.cur = nil
+	case r := <-n.cur:
+		n.cur, n.Last = nil, r
 		return true
 	case <-time.After(d):
 		return false
